@@ -1619,7 +1619,7 @@ class DistTriangular(DistContinuous):
 
     def probability_density(self, x: float) -> float:
         """Returns the probability density value for value x."""
-        if x >= self._lo and x <= self._mode:
+        if x >= self._lo and x <= self._mode and self._mode > self._lo:
             return (2.0 * (x - self._lo) / ((self._hi - self._lo) 
                     * (self._mode - self._lo)))
         if x >= self._mode and x <= self._hi:
